@@ -4,7 +4,7 @@
    Both are run (extracted) against the real momo::stdish AND libstdc++ containers on every check. *)
 From Coq Require Import ZArith List Permutation.
 From C06 Require Import Spec SpecProofs WrapOrdered WrapEq WrapErase History IterLoop GenRefine GenEq GenMisc GenNode GenCmp.
-From C06 Require Gen_USetErase Gen_UMapErase Gen_UMMapErase Gen_SetHint Gen_MSetHint Gen_MapFind Gen_MMapFind Gen_MapAt Gen_SetEqr Gen_UMapCreate Gen_SetCreate Gen_SetNodeHint Gen_MSetNodeHint Gen_USetNodeHint Gen_UMapNodeHint Gen_Vector Gen_MapIoa Gen_SetCmp Gen_SetCmpD Gen_MapCmp Gen_MapCmpD Gen_VecCmp Gen_VecCmpD Gen_SetNodeIns Gen_USetNodeIns Gen_MapNodeIns Gen_UMapNodeIns Gen_SetMerge.
+From C06 Require Gen_USetErase Gen_UMapErase Gen_UMMapErase Gen_SetHint Gen_MSetHint Gen_MapFind Gen_MMapFind Gen_MapAt Gen_SetEqr Gen_UMapCreate Gen_SetCreate Gen_SetNodeHint Gen_MSetNodeHint Gen_USetNodeHint Gen_UMapNodeHint Gen_Vector Gen_MapIoa Gen_SetCmp Gen_SetCmpD Gen_MapCmp Gen_MapCmpD Gen_VecCmp Gen_VecCmpD Gen_SetNodeIns Gen_USetNodeIns Gen_MapNodeIns Gen_UMapNodeIns Gen_SetMerge Gen_MapAssign Gen_UMapAssign Gen_SetAssign Gen_USetAssign.
 From MomoCommon Require Import GenPrelude.
 Import ListNotations.
 
@@ -484,6 +484,30 @@ Theorem C06_gen_vector_eq_forwards_to_array_is_equal : forall array_is_equal a b
   Gen_VecCmp.op_eq array_is_equal a b = array_is_equal a b.
 Proof. exact vec_eq_forwards. Qed.
 Print Assumptions C06_gen_vector_eq_forwards_to_array_is_equal.
+
+(* ===== (2k) operator=(initializer_list) as regenerated: the functor state and the allocator survive `c = {...}` ===== *)
+
+(* map/multimap (map_base::ptAssign) and, same code, unordered_map: for every nested-container constructor that stores the traits and
+   allocator it is given, the new nested container has the OLD container's traits (comparator / hash / key_eq state) and allocator *)
+Theorem C06_gen_map_assign_keeps_functor_state : forall (make_nested : Z -> Z -> Z) (traits_of alloc_of : Z -> Z) alloc_this old values,
+  (forall t a, traits_of (make_nested t a) = t) -> (forall t a, alloc_of (make_nested t a) = a) ->
+  traits_of (Gen_MapAssign.ptAssign make_nested traits_of alloc_this old values) = traits_of old /\
+  alloc_of (Gen_MapAssign.ptAssign make_nested traits_of alloc_this old values) = alloc_this.
+Proof. exact gen_map_assign_keeps_functor_state. Qed.
+Print Assumptions C06_gen_map_assign_keeps_functor_state.
+
+(* set/multiset and, same code, unordered_set *)
+Theorem C06_gen_set_assign_keeps_functor_state : forall (make_nested_il : Z -> Z -> Z -> Z) (traits_of alloc_of : Z -> Z) alloc_this old values,
+  (forall v t a, traits_of (make_nested_il v t a) = t) -> (forall v t a, alloc_of (make_nested_il v t a) = a) ->
+  traits_of (Gen_SetAssign.assign_il make_nested_il traits_of alloc_this old values) = traits_of old /\
+  alloc_of (Gen_SetAssign.assign_il make_nested_il traits_of alloc_this old values) = alloc_this.
+Proof. exact gen_set_assign_keeps_functor_state. Qed.
+Print Assumptions C06_gen_set_assign_keeps_functor_state.
+
+Theorem C06_gen_assign_il_same_code :
+  Gen_UMapAssign.assign_il = Gen_MapAssign.ptAssign /\ Gen_USetAssign.assign_il = Gen_SetAssign.assign_il.
+Proof. exact assign_il_same_code. Qed.
+Print Assumptions C06_gen_assign_il_same_code.
 
 (* ===== (3) non-vacuity: the pre-fix shapes of the three repaired functions violate the same statements ===== *)
 Theorem C06_unordered_erase_range_prefix_refuted : exists l first last ps,
